@@ -2220,6 +2220,7 @@ func TestVerifC23Fuzz(t *testing.T) {
 	const perCase = 64
 	panicsSeen := map[string]int{}
 	mismatchSeen := map[string]int{}
+	sigSeen := map[string]struct{}{}
 	r.Cases(n, func(ci int, rng *rand.Rand) {
 		var seeds [][]byte
 		g := verifC23NewGen(rng)
@@ -2294,7 +2295,10 @@ func TestVerifC23Fuzz(t *testing.T) {
 			if len(in) > 0 {
 				r.Distinct("fz", strategy, "ok", sig)
 			}
-			r.SetAdd("fuzz_decoded_record_kinds", sig)
+			if _, ok := sigSeen[sig]; !ok && len(sigSeen) < 120 {
+				sigSeen[sig] = struct{}{}
+				r.SetAdd("fuzz_decoded_record_kinds(first 120 per shard)", sig)
+			}
 			c1 := verifC23CanonEdit(e1)
 			verifC23AttachBackings(e1, nil, false)
 			var buf bytes.Buffer
